@@ -297,6 +297,9 @@ namespace Pistache::Tcp
                         wq.push_front(WriteEntry(std::move(deferred), bufferHolder, flags));
                         reactor()->modifyFd(key(), fd, NotifyOn::Read | NotifyOn::Write,
                                             Polling::Mode::Edge);
+                        // the socket takes no more data: go back to the event loop and
+                        // resume when it reports the descriptor writable
+                        stop = true;
                     }
                     // EBADF can happen when the HTTP parser, in the case of
                     // an error, closes fd before the entire request is processed.
